@@ -376,7 +376,7 @@ static Args c14_decode(Ctx&, Dec& d)
     case 3: x = ((int64_t)1 << 30) + dl; y = (u % 3 == 0) ? 65536 + dl2 : (int64_t)(u >> 8) % ((int64_t)1 << 31); break;               // hi at the 2^30 threshold
     case 4: x = ((int64_t)1 << 30) - 1 - (int64_t)(u % 4); y = 46000 + (int64_t)((u >> 8) % 20000); break;         // widest left shift, lo just below 2^16
     case 5: x = ((int64_t)16384 << 16) + dl; y = (int64_t)(u % ((uint64_t)16384 << 16)); break;                        // tolerance switch
-    case 6: x = 0; break;
+    case 6: if (u & 1) x = 0; else { int sh = (int)((u >> 1) % 5); x = (int64_t)(0xb504f334ull >> sh) - (int64_t)((u >> 4) % 4); y = (int64_t)(20000 + (u >> 8) % 45536); } break;   // hi just below the 2^31.5 guard constant (at every scale), lo large: the scaled sum of squares reaches [2^63, 2^64)
     case 7: { int l = 17 + (int)(u % 14); x = bl(l, u >> 8); y = (int64_t)(d.u64() % 65536); break; }               // shift-left branch, all shift amounts
   }
   if (x >= ((int64_t)1 << 47)) x = ((int64_t)1 << 47) - 1; if (y >= ((int64_t)1 << 47)) y = ((int64_t)1 << 47) - 1;
@@ -385,5 +385,5 @@ static Args c14_decode(Ctx&, Dec& d)
   return { x, y };
 }
 static Reg r_c14({ "C14.hypot", "C14", "rc",
-  "pairs (a, b) with |a|,|b| < 2^47 under both square-root algorithms: independent, same magnitude, one operand below 2^16 raw, max planted at the 2^30 normalisation threshold +-8 (incl. 2^30-1-j with min in [46000, 66000]), the 16384 tolerance switch +-8, one operand zero, every left-shift amount; oracle: t = sqrtl(a^2+b^2) from the exact 128-bit sum; |h-t| <= 2 ulp when both < 16384, else |h-t|/t <= 1.5e-4; h(a,b) == h(b,a) == h(|a|,|b|); never NaN or negative; non-trivial = max >= 2^29 raw, min < 2^16 raw, or within 8 raw of a threshold",
+  "pairs (a, b) with |a|,|b| < 2^47 under both square-root algorithms: independent, same magnitude, one operand below 2^16 raw, max planted at the 2^30 normalisation threshold +-8 (incl. 2^30-1-j with min in [46000, 66000]), the 16384 tolerance switch +-8, max just below the 2^31.5 overflow-guard constant of the code at every scale with a large min (scaled sum of squares in [2^63, 2^64)), one operand zero, every left-shift amount; oracle: t = sqrtl(a^2+b^2) from the exact 128-bit sum; |h-t| <= 2 ulp when both < 16384, else |h-t|/t <= 1.5e-4; h(a,b) == h(b,a) == h(|a|,|b|); never NaN or negative; non-trivial = max >= 2^29 raw, min < 2^16 raw, or within 8 raw of a threshold",
   c14_check, 24, c14_decode, nullptr });
